@@ -222,6 +222,56 @@ func (m *M) check(b, route string, a Args, pre *snapshot, r *world.Result) {
 		}
 	}
 
+	// ---------------- C12: accepted one-time values are removed durably ---------------------
+	if route == "otplogin" && r.Panic == "" && !r.Injected {
+		if u := pu(a.PID); u != nil && u.OTPs != "" {
+			h := sha64(a.PW)
+			preN, postN := 0, 0
+			for _, x := range strings.Split(u.OTPs, ",") {
+				if x == h {
+					preN++
+				}
+			}
+			if u1 := m.W.Store.Users[a.PID]; u1 != nil && u1.OTPs != "" {
+				for _, x := range strings.Split(u1.OTPs, ",") {
+					if x == h {
+						postN++
+					}
+				}
+			}
+			accepted := newU == a.PID && newU != oldU || post.Sess["totp_pending"] == a.PID && pre.sess["totp_pending"] != a.PID ||
+				post.Sess["sms_pending"] == a.PID && pre.sess["sms_pending"] != a.PID
+			if preN > 0 && accepted && postN != preN-1 {
+				m.violate("C12", "otp-not-removed", fmt.Sprintf("a one-time password of %q was accepted (login issued or parked for 2FA) but is still in storage", a.PID), b)
+			}
+		}
+	}
+	if cfg.OneTime && a.Code != "" && a.RCode == "" && r.Panic == "" && !r.Injected {
+		if route == "totpconfirm" && oldU != "" {
+			if u0, u1 := pu(oldU), m.W.Store.Users[oldU]; u0 != nil && u1 != nil && u0.TOTPSecretKey == "" && u1.TOTPSecretKey != "" && u1.TOTPLastCode != a.Code {
+				m.violate("C12", "totp-lastcode-confirm", "with replay protection the code that confirmed TOTP enrolment was not stored as the last used code", b)
+			}
+		}
+		if route == "totpvalidate" && newU != "" && newU != oldU {
+			if u1 := m.W.Store.Users[newU]; u1 != nil && u1.TOTPLastCode != a.Code {
+				m.violate("C12", "totp-lastcode-validate", "with replay protection an accepted TOTP code was not stored as the last used code", b)
+			}
+		}
+	}
+	if (route == "totpvalidate" || route == "smsvalidate" || route == "totpremove" || route == "smsremove") && a.RCode != "" && r.Panic == "" && !r.Injected {
+		who := newU
+		if who == "" || who == oldU {
+			who = oldU
+		}
+		if u0, u1 := pu(who), m.W.Store.Users[who]; u0 != nil && u1 != nil && recCodeValid(u0, a.RCode) {
+			acceptedRec := (route == "totpvalidate" || route == "smsvalidate") && newU != "" && newU != oldU ||
+				route == "totpremove" && u0.TOTPSecretKey != "" && u1.TOTPSecretKey == "" || route == "smsremove" && u0.SMSPhoneNumber != "" && u1.SMSPhoneNumber == ""
+			if acceptedRec && recCodeValid(u1, a.RCode) && strings.Count(u1.RecoveryCodes, ",") >= strings.Count(u0.RecoveryCodes, ",") && u0.RecoveryCodes != "" {
+				m.violate("C12", "reccode-not-removed", fmt.Sprintf("a recovery code of %q was accepted but is still in storage", who), b)
+			}
+		}
+	}
+
 	// ---------------- C06: a password change revokes the old credentials -------------------
 	for pid, u0 := range pre.users {
 		u1 := m.W.Store.Users[pid]
